@@ -121,6 +121,17 @@ def quadrature_weights(coord_vecs, mins, maxs):
 # --------------------------------------------------------------------------
 # model
 
+def weight_data(w, shape):
+    """Per-entry weights of an array-weighting descriptor: explicit ``data``
+    or, for large spaces, ``gen: {seed}`` expanded by a seeded generator
+    (strictly positive, three decimals)."""
+    if 'gen' in w:
+        size = int(np.prod(shape, dtype=int))
+        rng = np.random.RandomState(int(w['gen']['seed']))
+        return np.round(rng.uniform(0.2, 3.0, size), 3).reshape(shape)
+    return np.asarray(w['data'], dtype=float).reshape(shape)
+
+
 def _leaf_user_weight(sd, shape):
     """(kind, weight array or scalar) of the tensor-level weighting."""
     w = sd.get('weighting')
@@ -129,7 +140,7 @@ def _leaf_user_weight(sd, shape):
     if w['type'] == 'const':
         return 'const', LD(w['value'])
     if w['type'] == 'array':
-        arr = np.asarray(w['data'], dtype=float).reshape(shape)
+        arr = weight_data(w, shape)
         dt = np.dtype(sd.get('dtype', 'float64'))
         if dt in (np.dtype('float32'), np.dtype('complex64')) and \
                 not w.get('as64'):
